@@ -218,7 +218,8 @@ theorem rateLimit_accepts (s : S_cmd_rateLimitConfig) :
   obtain ⟨a8, h8⟩ := Option.ne_none_iff_exists'.mp (tcp_total s.TCP)
   unfold rateLimitConfig_validate; tr_norm
   simp only [h1, h2, h3, h4, h5, h6, h7, h8]; tr_norm; tr_first
-  simp only [ne_eq, Int.not_le]
+  -- independent of the order of the checks in the source
+  constructor <;> (intro h; simp only [ne_eq, Int.not_le] at h ⊢; simp_all)
 
 
 theorem genOpts_accepts (p : Bool) (count ivl len m : Int) (h0 : 0 ≤ count) :
@@ -900,6 +901,25 @@ example : (cacheConfig_toInternal (genCache dist)).isSome = true := by decide
 example : cacheConfig_toInternal (genCache { dist with pTtl := false }) = none := by decide
 
 
+/-! ## The per-query consumer of the key lengths -/
+
+/-- `Backoff.subnetKey` asks `netip.Addr.Prefix` for exactly one prefix, of the length configured for
+the client's address family (`ip.Is4()` decides), whatever the opaque calls return … -/
+theorem subnetKey_prefix_len (l : S_ratelimit_Backoff) (is4 : Bool) (p4 p6 : Unit × Option String) (k : String)
+    (r : String × List (String × List String)) (h : Backoff_subnetKey l is4 p4 k p6 = some r) :
+    r = (k, [("Prefix", [toString (if is4 then l.ipv4SubnetKeyLen else l.ipv6SubnetKeyLen)])]) := by
+  unfold Backoff_subnetKey at h
+  cases is4 <;> simp only [Bool.false_eq_true, ↓reduceIte, List.nil_append] at h ⊢ <;>
+    split at h <;> first | exact (Option.some.inj h).symm | exact absurd h (by simp)
+
+/-- … and it panics exactly when that call reports an error (`netip` does so iff the length does not
+fit the family — which `rateLimit_toInternal_ok` excludes for an accepted configuration). -/
+theorem subnetKey_panics_iff (l : S_ratelimit_Backoff) (is4 : Bool) (p4 p6 : Unit × Option String) (k : String) :
+    Backoff_subnetKey l is4 p4 k p6 = none ↔ (if is4 then p4.2 else p6.2) ≠ none := by
+  unfold Backoff_subnetKey
+  cases is4 <;> simp only [Bool.false_eq_true, ↓reduceIte] <;> split <;>
+    simp_all [Option.isSome_iff_ne_none]
+
 /-! ## Reporting -/
 
 /-- A missing section is reported as `no value` by every section validator instead of dereferencing nil
@@ -1030,5 +1050,7 @@ end Agd.Tie.TrC20
 #print axioms Agd.Tie.TrC20.rateLimit_toInternal_ok
 #print axioms Agd.Tie.TrC20.toInternal_nil
 #print axioms Agd.Tie.TrC20.network_toInternal_ok
+#print axioms Agd.Tie.TrC20.subnetKey_prefix_len
+#print axioms Agd.Tie.TrC20.subnetKey_panics_iff
 #print axioms Agd.Tie.TrC20.missing_reported
 #print axioms Agd.Tie.TrC20.rateLimit_names_ipv4
